@@ -131,6 +131,18 @@ def run_case(case, ctx):
         results[route] = ("wrong_class", type(q2).__name__, "rebuilt as %s" % type(q2).__name__, [])
         continue
       res = qcompare.compare(q, q2, qenv.call, qenv.as_np, case["seed"])
+      if res["kind"] is None and (cls.startswith("stochastic_") or cls == "bernoulli" or getattr(q, "use_stochastic_rounding", False)):
+        # the training phase of the stochastic classes is part of the function: same (constant) draw for both
+        K.set_learning_phase(1)
+        try:
+          stream.set_const(0.37)
+          res_t = qcompare.compare(q, q2, qenv.call, qenv.as_np, case["seed"])
+        finally:
+          K.set_learning_phase(0)
+          stream.set_grid(23, 64)
+        ctx.count("training_phase_compared")
+        if res_t["kind"] is not None:
+          res = dict(res_t, detail="training phase, every draw 0.37: " + str(res_t.get("detail")))
       lost = qcompare.differing_options(q, q2)
       if res["kind"] is None:
         # the same serialized object a second time: must rebuild the same quantizer again
